@@ -4,6 +4,10 @@ CHECKS = {
  'C08': ('vf','check_c08'),
  'C09': ('vf','check_c09'),
  'C10': ('vf','check_c10'),
+ 'C03': ('vf','check_c03'),
+ 'C12': ('vf','check_c12'),
+ 'C19': ('vf','check_c19'),
+ 'C20': ('vf','check_c20'),
 }
 TLA = 'explicit TLA+ spec (VFApi) checked by TLC; conformance by trace validation of recorded executions of the real library (VFApi_Trace) and replay of TLC-generated behaviours (VFApi_MC)'
 META = {
@@ -19,6 +23,18 @@ META = {
  'C10': dict(level='model_checking', design='5 C10', technique=TLA,
    text='Recorded complete decodes through vorbisfile in seekable and streaming mode under generated short-read schedules of the read callback (1 byte, random, fixed k, page boundary +-d, inside page header +-d, pre-read initial bytes) and schedules of requested lengths are validated by TLC against VFApi: every chunk must be the next samples of the packet-level reference, no hole/error on intact streams.',
    note='same trusted base as C07; the packet-level access path is the reference itself; the OggSync design model covers the byte-delivery independence at page level'),
+ 'C03': dict(level='exploration', design='5 C03', technique=TLA,
+   text='Generated chained streams receive 1..5 page-level damages (garbage, fake capture patterns, dropped/duplicated/swapped pages, truncation, lying granule positions with CRC re-fixed, EOS/BOS flag changes, serial rewrites incl. repeats, bit flips, zeroed bodies); each is opened seekable / streaming / via ov_test and driven through 10 random calls of the whole vorbisfile API plus crosslap with an intact handle and a double clear, under ASan/UBSan with CPU budget and exit trap. TLC validates every recorded call against the safety part of VFApi: no crash / hang / exit, only documented codes, failed open leaves the handle zeroed and the source unclosed, close exactly once, nothing leaked.',
+   note='structured page-level damage, not arbitrary byte strings; sanitizers and budget are observers inside the conformance step'),
+ 'C12': dict(level='fault_enumeration', design='5 C12', technique=TLA,
+   text='For ten base call sequences (open, linear read, every kind of seek incl. lapped and page-spanning packets, half-rate) a fault-free probe counts the callback invocations; then one scenario per (fault kind x invocation index k x one-shot/persisting) re-runs the sequence with the fault injected, switches faults off and performs 3 sample seeks, reads, a page seek, tell and clear. TLC validates each trace against VFApi: during the fault only documented codes/EOF, no close behind the caller, failed open leaves the handle zeroed; after faults off the FULL contract (exact landing, bit-exact identity) applies again.',
+   note='one fault plan per scenario; quick tier strides k with a seed-dependent phase, thorough enumerates every k; same trusted base as C07'),
+ 'C19': dict(level='model_checking', design='5 C19', technique=TLA,
+   text='VFApi gives every lapped seek the postcondition of its plain counterpart plus a lap allowance of min(bs0_old,bs0_new)/2 returned samples; TLC checks on recorded chains of all five lapped variants, crosslaps between two handles and TLC-generated histories that the landing position equals the plain rule, that everything after the allowance is bit-identical to the reference, that failures coincide with plain failures and that OV_EOF without lapping occurs only at link ends / without decode state.',
+   note='values inside the lapped region (the cross-fade itself) are float arithmetic and are not decided; same trusted base as C07'),
+ 'C20': dict(level='model_checking', design='5 C20', technique=TLA,
+   text='Half-rate toggles at chosen points of call histories (fresh, mid-packet, link end, EOF, after refused seek, after raw seek to the end), complete half-rate decodes seekable and streaming, and TLC-generated histories containing ov_halfrate are recorded and validated by TLC against VFApi with hs=1: ceil(N/2) samples per link located bit-exactly in the half-rate packet-level reference, positions advance by 2 per sample, sample seeks land on the even position at or below the target, refusal (synthetic 64-sample short blocks) leaves full rate intact at the same position, switching off restores full-rate identity.',
+   note='on files where a non-final link has odd length the exactness of positions in half-rate mode is relaxed to +-1 (the two statements of the property conflict there, see DESIGN.md); same trusted base as C07'),
 }
 NOT_APPLICABLE = {
  'C06': 'every clause is about real-valued signal fidelity (finiteness, alignment by correlation, peak ratio, error vs quality); TLC has integers only and a numerical oracle would be a different technique (DESIGN.md section 6)',
